@@ -2,9 +2,10 @@ package props
 
 import (
 	"bytes"
-	"strings"
 	"fmt"
+	"io"
 	"math/big"
+	"strings"
 
 	mpb "github.com/vbauerster/mpb/v8"
 	"github.com/vbauerster/mpb/v8/decor"
@@ -31,6 +32,10 @@ type c08Case struct {
 	Rev       bool  `json:"rev"`
 	Completed bool  `json:"completed"` // Statistics.Completed flag (only generated true when current>=total>0)
 	TipOnC    bool  `json:"tip_on_complete"`
+	// animated tip: 0 = the single frame ">"; 1 = ">", ">>>"; 2 = ">>", ">", ">>>". TipAdvance Fill calls
+	// are made (and discarded) before the judged one, so that it draws a later frame.
+	TipFrames  int `json:"tip_frames,omitempty"`
+	TipAdvance int `json:"tip_advance,omitempty"`
 }
 
 func init() {
@@ -109,6 +114,10 @@ func genC08(t *rapid.T) interface{} {
 		c.Completed = true
 	}
 	c.TipOnC = rapid.IntRange(0, 3).Draw(t, "tipc") == 0
+	if rapid.IntRange(0, 3).Draw(t, "animatedtip") == 0 {
+		c.TipFrames = rapid.IntRange(1, 2).Draw(t, "tipframes")
+		c.TipAdvance = rapid.IntRange(0, 3).Draw(t, "tipadvance")
+	}
 	return c
 }
 
@@ -129,6 +138,12 @@ type c08Cells struct {
 
 func c08Fill(c *c08Case, current int64, completed bool) (c08Cells, error) {
 	st := mpb.BarStyle().Lbound("[").Rbound("]").Tip(">").Padding("-")
+	switch c.TipFrames {
+	case 1:
+		st = st.Tip(">", ">>>")
+	case 2:
+		st = st.Tip(">>", ">", ">>>")
+	}
 	if c.Wide && c.Cluster {
 		st = st.Filler(c08ClusterFill).Refiller(c08ClusterRefill)
 	} else if c.Wide {
@@ -154,6 +169,10 @@ func c08Fill(c *c08Case, current int64, completed bool) (c08Cells, error) {
 	var err error
 	// a fill that never returns (or eats the heap) is reported, not waited for
 	_ = guardTermination("C08", c, func() {
+		for k := 0; k < c.TipAdvance && c.TipFrames > 0; k++ {
+			_ = f.Fill(io.Discard, decor.Statistics{AvailableWidth: c.Width, RequestedWidth: c.Requested,
+				Total: c.Total, Current: current, Refill: refill, Completed: completed})
+		}
 		err = f.Fill(&buf, decor.Statistics{AvailableWidth: c.Width, RequestedWidth: c.Requested,
 			Total: c.Total, Current: current, Refill: refill, Completed: completed})
 	})
@@ -251,6 +270,12 @@ func c08Check(c *c08Case, current int64, completed bool) (filled int, err error)
 	if c.Wide {
 		slack = 1 // within one rune: a 2-column rune that does not fit leaves one cell
 	}
+	if cells.tip > hi {
+		// a tip frame is one indivisible component: where the proportional part is
+		// narrower than the frame, the frame is drawn whole ("to within one rune for
+		// multi-column runes" read as: to within one component)
+		hi = cells.tip
+	}
 	if filled < lo-slack || filled > hi {
 		return filled, fmt.Errorf("filled cells=%d, want round(%d*%d/%d) in [%d,%d] (slack %d below); row %q",
 			filled, inner, current, c.Total, lo, hi, slack, cells.raw)
@@ -294,6 +319,9 @@ func runC08(ci interface{}) Result {
 	}
 	if c.Refill > 0 {
 		r.Classes = append(r.Classes, "refill")
+	}
+	if c.TipFrames > 0 && c.TipAdvance > 0 {
+		r.Classes = append(r.Classes, "animated-tip")
 	}
 	if c.Total <= 0 {
 		r.Classes = append(r.Classes, "total<=0")
